@@ -7,7 +7,10 @@
    Invariant [stored file addr flags before after dims maxd pre suf]: the file holds at addr a version 2 object header
    as the library's writer produces it - any messages [before] (no dataspace among them), the dataspace message of
    extents dims / maxima maxd, any messages [after] (layout, filter pipeline, attributes, reference count ...) -
-   with bytes pre in front and suf behind.  [handle_ok h]: the handle of a resizable dataset as CreateDataset
+   with bytes pre in front and suf behind; the file goes on behind the header or the last message has two bytes of
+   data (room: the reader fetches 6 bytes per message header), so the header may be the very end of the file, as it
+   is for a dataset created last in a session (ex_stored: a header image produced by the library, suf = []).
+   [handle_ok h]: the handle of a resizable dataset as CreateDataset
    builds it.  Both are preserved by every call (C13H_resize_decodes, C13H_resizes_last_accepted). *)
 From HV Require Import Base.Prelude Base.Outcome Base.Bytes Model.CodecMsg Model.CodecOhdr Model.Resize.
 From HV Require Import Proofs.ResizeBase Proofs.Resize Proofs.ResizeThms.
